@@ -63,9 +63,9 @@ func rcBuild(c rcacheCase, cached bool) *rcTwin {
 		opts = append(opts, rux.HandleFallbackRoute)
 	}
 	if cached {
-		opts = append(opts, rux.CachingWithNum(uint16(c.Cap)))
+		opts = append(opts, cachingOpts(c.Cap)...)
 	}
-	t := &rcTwin{r: rux.New(opts...)}
+	t := &rcTwin{r: newRouter(opts...)}
 	for i, row := range rcacheTables[c.Table] {
 		tag := fmt.Sprintf("r%d", i+1)
 		ms := []string{}
@@ -286,9 +286,9 @@ func rcacheRecord(s *Summary, rng *rand.Rand, n int, out *traceWriter) {
 				opts = append(opts, rux.HandleFallbackRoute)
 			}
 			if cached {
-				opts = append(opts, rux.CachingWithNum(uint16(capN)))
+				opts = append(opts, cachingOpts(capN)...)
 			}
-			r := rux.New(opts...)
+			r := newRouter(opts...)
 			rts := []*rux.Route{}
 			for i, e := range sc.routes {
 				tag := fmt.Sprintf("r%d", i+1)
